@@ -5,6 +5,8 @@ import (
 	"fmt"
 	"os"
 	"strings"
+
+	cli "github.com/jawher/mow.cli"
 )
 
 // C07 — rejected invocations run nothing and follow the configured error policy.
@@ -306,7 +308,7 @@ func (c07Prop) Phases(tier string) []PhaseCfg {
 
 func (c07Prop) Gen(t *Tape, ph *PhaseCfg) Case {
 	if ph.P["session"] == 1 {
-		return genSession(t, ph.P["maxdepth"], func(t *Tape, tc *TreeCase) *c07Case { return c07Invocation(t, tc, false) })
+		return genSession(t, ph.P["maxdepth"], false, func(t *Tape, tc *TreeCase) *c07Case { return c07Invocation(t, tc, false) })
 	}
 	if ph.P["pair"] == 1 {
 		a := c07Prop{}.genOne(t, ph)
@@ -535,7 +537,7 @@ func (c14Prop) Phases(tier string) []PhaseCfg {
 
 func (c14Prop) Gen(t *Tape, ph *PhaseCfg) Case {
 	if ph.P["session"] == 1 {
-		return genSession(t, ph.P["maxdepth"], func(t *Tape, tc *TreeCase) *c07Case {
+		return genSession(t, ph.P["maxdepth"], true, func(t *Tape, tc *TreeCase) *c07Case {
 			return c14Invocation(t, tc, []string{"help", "help", "help", "help-as-data", "valid"}[t.Draw(5)])
 		})
 	}
@@ -767,6 +769,46 @@ func c14Verdict(c *c07Case, runs [3]policyRun, st *Stats) *Violation {
 	return nil
 }
 
+// sessionLate: a command registered on the application object after it has already run (plugins, a REPL that
+// learns commands) is addressed like any other: its help names its own path, nothing runs, the end is the
+// documented one for the policy it inherited from the root at the moment of its declaration.
+func sessionLate(sc *sessionCase, inst *Instance, pol flag.ErrorHandling, st *Stats) *Violation {
+	st.Count("reach.help_of_a_command_registered_after_the_first_run")
+	tc := sc.Invocations[0].Tree
+	argv := lateArgv(sc)
+	ran := false
+	p := NewProc(100)
+	RunProc(p, func() error {
+		inst.Proc = p
+		inst.Cli.Command("late l8", "registered after the application has run", func(c *cli.Cmd) {
+			c.Command("deep", "below the late command", func(d *cli.Cmd) { d.Action = func() { ran = true } })
+			c.Action = func() { ran = true }
+		})
+		return inst.Cli.Run(argv)
+	})
+	want := "Usage: " + strings.Join(argv[:len(argv)-1], " ")
+	if sc.Late == 3 {
+		want = "Usage: " + argv[0] + " late"
+	}
+	pn := policyName(pol)
+	obs := map[string]interface{}{"argv": argv, "end": describeEnd(p), "stderr": clip(p.Stderr.String(), 600)}
+	if ran || len(p.Observed()) != 0 {
+		return &Violation{Clause: "session-help-runs-nothing", Detail: pn + ": the help request for a command registered after the first run ran a callback", Expected: "no callback event", Observed: obs}
+	}
+	if eff := effectivePolicy(tc, 0, pol); eff == flag.ExitOnError {
+		if p.End != EndExited || p.ExitCode != 0 || p.ExitCalls != 1 {
+			return &Violation{Clause: "session-help-end", Detail: pn + ": a help request for a command registered after the first run must exit once with status 0", Expected: "exited(0)", Observed: obs}
+		}
+	} else if p.End != EndReturned || p.Err != nil {
+		return &Violation{Clause: "session-help-end", Detail: pn + ": a help request for a command registered after the first run must return nil", Expected: "returned nil", Observed: obs}
+	}
+	out := p.Stderr.String()
+	if !strings.Contains(out, want+" ") && !strings.Contains(out, want+"\n") {
+		return &Violation{Clause: "session-help-usage", Detail: pn + ": the help of the addressed command (registered after the first run) is missing", Expected: want, Observed: obs}
+	}
+	return nil
+}
+
 // ---------------------------------------------------------------------------
 // Scheduled pairs: two cases run as concurrent simulated processes under the cooperative
 // scheduler (one world per error policy), then each is judged by the same oracle. This is where
@@ -839,6 +881,10 @@ func execPair(pc *pairCase, st *Stats, verdict func(*c07Case, [3]policyRun, *Sta
 
 type sessionCase struct {
 	Invocations []*c07Case
+	// Late: after the invocations the host program registers one more command on the same application object and
+	// asks for its help (0 = no; 1 = `late <help>`; 2 = `late deep <help>`; 3 = `l8 <help>` through its alias)
+	Late     int
+	LateHelp string
 }
 
 func (sc *sessionCase) Describe() interface{} {
@@ -846,10 +892,14 @@ func (sc *sessionCase) Describe() interface{} {
 	for _, c := range sc.Invocations {
 		inv = append(inv, map[string]interface{}{"argv": c.Argv, "kind": c.Kind, "level": c.Level, "stream": c.Stream.String()})
 	}
-	return map[string]interface{}{"session_on_one_application_object": inv, "app": sc.Invocations[0].Tree.App.Describe()}
+	m := map[string]interface{}{"session_on_one_application_object": inv, "app": sc.Invocations[0].Tree.App.Describe()}
+	if sc.Late > 0 {
+		m["then_a_command_registered_late_is_asked_for_help"] = lateArgv(sc)
+	}
+	return m
 }
 
-func genSession(t *Tape, maxDepth int, one func(t *Tape, tc *TreeCase) *c07Case) *sessionCase {
+func genSession(t *Tape, maxDepth int, late bool, one func(t *Tape, tc *TreeCase) *c07Case) *sessionCase {
 	base := genTree(t, TreeOpts{Depth: -1, MaxDepth: maxDepth, Policy: 0, CB: c07Callbacks, SubBare: true, Fancy: true})
 	sc := &sessionCase{}
 	n := 2 + t.Draw(2)
@@ -859,12 +909,28 @@ func genSession(t *Tape, maxDepth int, one func(t *Tape, tc *TreeCase) *c07Case)
 		tc.Tokens[0] = levelTpls[tc.Tpl[0]].valid(t)
 		sc.Invocations = append(sc.Invocations, one(t, tc))
 	}
+	if late && t.Draw(4) == 0 {
+		sc.Late = 1 + t.Draw(3)
+		sc.LateHelp = []string{"-h", "--help"}[t.Draw(2)]
+	}
 	return sc
+}
+
+func lateArgv(sc *sessionCase) []string {
+	root := strings.Fields(sc.Invocations[0].Tree.Path[0].Name)[0]
+	switch sc.Late {
+	case 2:
+		return []string{root, "late", "deep", sc.LateHelp}
+	case 3:
+		return []string{root, "l8", sc.LateHelp}
+	}
+	return []string{root, "late", sc.LateHelp}
 }
 
 func execSession(sc *sessionCase, st *Stats, verdict func(*c07Case, [3]policyRun, *Stats) *Violation) *Violation {
 	n := len(sc.Invocations)
 	runs := make([][3]policyRun, n)
+	var lateViolation *Violation
 	for k, pol := range policies {
 		app := *sc.Invocations[0].Tree.App
 		app.Policy = pol
@@ -886,8 +952,14 @@ func execSession(sc *sessionCase, st *Stats, verdict func(*c07Case, [3]policyRun
 				runs[i][k].snap = inst.ActionSnap
 			}
 		}
+		if sc.Late > 0 && inst != nil && lateViolation == nil {
+			lateViolation = sessionLate(sc, inst, pol, st)
+		}
 	}
 	st.Count("sessions")
+	if v := lateViolation; v != nil {
+		return v
+	}
 	for i, c := range sc.Invocations {
 		if v := verdict(c, runs[i], st); v != nil {
 			v.Clause = "session-" + v.Clause
